@@ -51,7 +51,9 @@ def piece(r, width, wcharsigned):
         return chr(cp).encode('utf-8'), units
     if k < 0.5:
         e, v = r.choice([('\\n', 10), ('\\t', 9), ('\\\\', 92), ('\\"', 34), ("\\'", 39), ('\\a', 7), ('\\b', 8), ('\\f', 12), ('\\r', 13), ('\\v', 11), ('\\?', 63), ('\\0', 0)])
-        return e.encode(), [v]
+        # blanks right after an escape belong to the literal (after an escaped backslash they are not the start of a line splice)
+        tail = r.choice(['', '', '', ' ', '  ', '\t', ' \t ', ' x']) if v != 0 else ''
+        return (e + tail).encode(), [v] + [ord(c) for c in tail]
     if k < 0.75:
         # octal escape with 1..3 digits, possibly followed by a digit-like character
         nd = r.randrange(1, 4)
